@@ -561,7 +561,7 @@ func c18GenPeerCommon(r *rand.Rand, ebgp, v6, forGroup bool, policies []string) 
 		if c18Bool(r) {
 			t.RemotePort = uint32(1024 + r.IntN(60000))
 		}
-		if c18Bool(r) {
+		if !forGroup && c18Bool(r) { // (newPeerGroupFromAPIStruct does not read local_port)
 			t.LocalPort = uint32(1024 + r.IntN(60000))
 		}
 		if c18Bool(r) {
